@@ -1,5 +1,7 @@
 import OSProofs.Props.C01
 import OSProofs.Props.C01b
+import OSProofs.Props.C01d
+import OSProofs.Props.C01e
 import OSProofs.CodeShaped
 import OSProofs.Ladder
 #print axioms OS.C01_PL
@@ -26,3 +28,22 @@ import OSProofs.Ladder
 #print axioms OS.ladderPairsCode_getElem
 #print axioms OS.rateCore_via_prepared
 #print axioms OS.compute_eq_computeOn
+#print axioms OS.LeafGap.refl
+#print axioms OS.LeafGap.symm
+#print axioms OS.tmPair_gap
+#print axioms OS.C01_leaf_gap_TMF
+#print axioms OS.C01_leaf_gap_TMP
+#print axioms OS.C01_leaf_gap_pos_of_beta
+#print axioms OS.C01_leaf_gap_player
+#print axioms OS.C01_leaf_gap_player_sigma
+#print axioms OS.C01_leaf_gap_applyTeam
+#print axioms OS.C01_leaf_gap_compute_TMF
+#print axioms OS.C01_leaf_gap_compute_TMP
+#print axioms OS.C01_leaf_gap_rating_TMF
+#print axioms OS.C01_leaf_gap_rating_TMP
+#print axioms OS.leafGap_code_exact
+#print axioms OS.codeGapW_of_le_eight
+#print axioms OS.codeGapVW_eq_zero
+#print axioms OS.C01_code_vs_exact_TMF
+#print axioms OS.C01_code_vs_exact_TMP
+#print axioms OS.C01_leafGap_code_exact
